@@ -98,5 +98,24 @@ def install():
     import crosshair.statespace as ss
     ss.StateSpace.fork_parallel = lambda self, false_probability, desc="": False
 
+    # int(<symbolic float>) : CrossHair's builtin patch realises the float (one path per concrete
+    # value); under M1 (real-valued floats) truncation is expressible symbolically, which is what
+    # RealBasedSymbolicFloat.__int__ already does.
+    from crosshair.tracers import NoTracing
+    orig_int = core._PATCH_REGISTRATIONS.get(int)
+    if orig_int is not None:
+        from crosshair.util import CrossHairValue
+
+        def _int(*a, **kw):
+            with NoTracing():
+                is_real = len(a) == 1 and not kw and type(a[0]) is bl.RealBasedSymbolicFloat
+                if not is_real and not any(isinstance(x, CrossHairValue) for x in a) \
+                        and not any(isinstance(x, CrossHairValue) for x in kw.values()):
+                    return int(*a, **kw)        # concrete arguments: the real builtin
+            if is_real:
+                return a[0].__int__()
+            return orig_int(*a, **kw)
+        core._PATCH_REGISTRATIONS[int] = _int
+
 
 install()
